@@ -13,20 +13,35 @@ from vlib import common
 
 LEVEL = "model_checking"
 
-_TYPES = None
+_TYPES = {}
 
 
-def types():
-    global _TYPES
-    if _TYPES is None:
+def _declared_in_conveyor():
+    from pydsol.core.pubsub import EventType
+    return EventType("C08_STATE_CHANGED")
+
+
+def _declared_in_machine():
+    from pydsol.core.pubsub import EventType
+    return EventType("C08_STATE_CHANGED")
+
+
+def types(kind="distinct"):
+    """'distinct': two event types with different names; 'samename': two
+    event types with the SAME name declared in different places (the defining
+    place is part of an event type's identity)"""
+    if kind not in _TYPES:
         from pydsol.core.pubsub import EventType
-        _TYPES = [EventType("C08_T0"), EventType("C08_T1")]
-    return _TYPES
+        if kind == "distinct":
+            _TYPES[kind] = [EventType("C08_T0"), EventType("C08_T1")]
+        else:
+            _TYPES[kind] = [_declared_in_conveyor(), _declared_in_machine()]
+    return _TYPES[kind]
 
 
-def make_world(NL):
+def make_world(NL, kind="distinct"):
     from pydsol.core.pubsub import EventListener, EventProducer
-    T = types()
+    T = types(kind)
 
     class Lst(EventListener):
         def __init__(self, i, world):
@@ -35,7 +50,8 @@ def make_world(NL):
 
         def notify(self, e):
             w = self.w
-            w.log.append((self.i, T.index(e.event_type), e.content,
+            w.log.append((self.i, [k for k, t in enumerate(T)
+                                   if t is e.event_type][0], e.content,
                           getattr(e, "timestamp", None)))
             act = w.script.get(self.i)
             if act and not w.in_script.get(self.i):
@@ -177,9 +193,9 @@ def check_transition(World, NT, hist, step):
 
 
 def bfs(task):
-    name, NT, NL, sub_types, rich = task
-    types()
-    World = make_world(NL)
+    name, NT, NL, sub_types, rich = task[:5]
+    kind = task[5] if len(task) > 5 else "distinct"
+    World = make_world(NL, kind)
     alpha = alphabet(NT, NL, sub_types, rich)
     r0 = Ref(NT)
     seen = {r0.canon(): []}
@@ -205,7 +221,7 @@ def bfs(task):
                 seen[c] = h + [step]
                 frontier.append(h + [step])
     deepest = max(seen.values(), key=len)
-    return dict(name=name, NT=NT, NL=NL, sub=sub_types, rich=rich,
+    return dict(name=name, NT=NT, NL=NL, sub=sub_types, rich=rich, kind=kind,
                 states=len(seen), transitions=trans, maxdepth=maxdepth,
                 viols=viols, ops=len(alpha), sample=deepest)
 
@@ -334,6 +350,8 @@ def payload_table():
 def run(ctx):
     quick = ctx.tier == "quick"
     tasks = [("2 types x 3 listeners", 2, 3, [0, 1], False),
+             ("2 same-named types declared in different places x 3 "
+              "listeners", 2, 3, [0, 1], False, "samename"),
              ("1 subscribed type x 5 listeners (+1 type for nested fires)",
               2, 5, [0], False)]
     if not quick:
@@ -351,7 +369,8 @@ def run(ctx):
         ctx.sample({"config": r["name"], "deepest_history": r["sample"]},
                    limit=3)
         for h, step, b in r["viols"]:
-            rep = {"NT": r["NT"], "NL": r["NL"], "hist": h, "step": step}
+            rep = {"NT": r["NT"], "NL": r["NL"], "hist": h, "step": step,
+                   "kind": r["kind"]}
             ctx.violation("C08:%s:%s" % (b[0], step[0][0]),
                           "producer (%s): after %s, step %s: %s" % (
                               r["name"], h, step, b), rep, rank=len(h))
@@ -388,8 +407,7 @@ def replay(data):
     if "payload_case" in data:
         n, bad = payload_table()
         return bad[:3] or None
-    types()
-    World = make_world(data["NL"])
+    World = make_world(data["NL"], data.get("kind", "distinct"))
     hist = [(_tup(op), {int(k): _tup(v) for k, v in sc.items()})
             for op, sc in data["hist"]]
     op, sc = data["step"]
